@@ -30,7 +30,7 @@ TAG_PROPERTY = {
     "buf": "C08", "mon.load.act": "C08", "mon.load.res": "C08", "mon.load.exit": "C08", "mon.load.enter": "C08",
     "ret": "C09", "mon.replay.act": "C09", "mon.replay.res": "C09",
 }
-CONFIG_TAGS = {"act", "isA", "res"}
+CONFIG_TAGS = {"act", "isA", "res", "ev.guard.requested"}
 UNATTRIBUTED = {"ev.life", "ev.report", "ev.all"}
 
 TIERS = {
@@ -206,6 +206,10 @@ def planedit_records(run):
     return {(f, l) for f, l in run["notes"].get("planedit", [])}
 
 
+def planexec_records(run):
+    return {(f, l) for f, l in run["notes"].get("planexec", [])}
+
+
 def route(run, d, rec_kinds=None):
     """property id for a diff, or None (unattributed)"""
     tag = d["tag"]
@@ -219,7 +223,7 @@ def route(run, d, rec_kinds=None):
             return "C10"
         if tag in CONFIG_TAGS:
             return "C04" if (d["file"], d["l"]) in vetoed_records(run) else "C02"
-    if tag in ("plans", "tasks", "pex", "plog") and (d["file"], d["l"]) in planedit_records(run):
+    if tag in ("plans", "tasks", "pex", "plog") and (d["file"], d["l"]) in planedit_records(run) and (d["file"], d["l"]) not in planexec_records(run):
         return "C07"
     return TAG_PROPERTY.get(tag)
 
@@ -232,7 +236,7 @@ STAGES = [
     ("C05", {"ev.traverse"}),
     ("C06", {"ev.plan", "ev.status", "succ", "fail", "hst", "sst"}),
     ("C12", {"draws"}),
-    ("CFG", {"act", "isA", "res"}),
+    ("CFG", {"ev.guard.requested", "act", "isA", "res"}),
     ("C06", {"plans", "pex", "tasks", "plog"}),     # plan edits made from lifecycle callbacks come after the resolution
                                                     # (C07 when user code edited a plan in that step, see primary())
     ("C04", {"ev.guard", "ev.guard.pending", "q", "req", "rem", "oreq"}),
@@ -256,8 +260,13 @@ def primary(run, ds):
         hit = [d for d in ds if d["tag"] in stage_tags]
         if not hit:
             continue
-        if prop == "C06" and "plans" in stage_tags and (ds[0]["file"], ds[0]["l"]) in planedit_records(run):
+        key = (ds[0]["file"], ds[0]["l"])
+        if prop == "C06" and "plans" in stage_tags and key in planedit_records(run) and key not in planexec_records(run):
             return "C07", hit       # the storage of tasks (append / remove / clear / iteration), not the execution of plans
+        if prop == "CFG" and key in planexec_records(run) and tags & {"plans", "tasks"}:
+            return "C06", hit       # the plan executor ran and left other tasks behind than it should: its outcome, not the resolution's
+        if prop == "C16" and all(d["tag"].startswith("log.") or d["tag"] == "lg" for d in hit):
+            return prop, hit        # what the logger was told is C16's matter whatever the call
         if prop == "CFG" or call in ("load", "save", "copy"):
             if call in ("load", "save"):
                 prop = "C08"
@@ -267,7 +276,10 @@ def primary(run, ds):
                 prop = "C02"        # replay re-resolves with the same machinery; C09 owns the replica monitors and the history projections
             elif prop == "CFG":
                 f, l = ds[0]["file"], ds[0]["l"]
-                prop = "C04" if (f, l) in vetoed_records(run) else ("C12" if "ev.report" in tags or "draws" in tags else "C02")
+                by_choice = "C12" if "ev.report" in tags or "draws" in tags else "C02"
+                # what the requests were resolved to is the resolution's matter also in a vetoed step; a configuration that
+                # differs after a veto although the guards ran under the expected registry is the veto's
+                prop = by_choice if "ev.guard.requested" in tags else ("C04" if (f, l) in vetoed_records(run) else by_choice)
         return prop, hit
     return None, []
 
